@@ -20,7 +20,7 @@ from vlib import coqprint as cp
 HEADER = ('From PK Require Import Uid.Cases.\nFrom Coq Require Import List ZArith Bool.\n'
           'Import ListNotations.\nOpen Scope Z_scope.\n')
 
-USERS = ['alice', 'bob', 'carol', 'dave']
+USERS = ['alice', 'bob', 'carol', 'dave', 'mallory']
 GROUPS = {0: None, 1: ['custodians'], 2: ['other'], 3: ['other', 'custodians'], 4: []}
 
 
@@ -37,9 +37,9 @@ def who_name(who):
 def pick_who(rng, custodian=0.12, odd=0.08):
     x = rng.random()
     if x < custodian:
-        return rng.randrange(len(USERS)) + 100 * rng.choice([1, 1, 3])
+        return rng.randrange(4) + 100 * rng.choice([1, 1, 3])
     if x < custodian + odd:
-        return rng.randrange(len(USERS)) + 100 * rng.choice([2, 4])
+        return rng.randrange(4) + 100 * rng.choice([2, 4])
     return rng.randrange(3)
 
 
@@ -227,6 +227,10 @@ def build_item(spec, ver):
         return kdrv.get(sid(spec['tgt_uid']), wrap=wrap_spec(sid(spec['w_uid'])))
     if o == 'locate':
         return kdrv.locate()
+    if o == 'discover':
+        return kdrv.discover_versions([tuple(v) for v in spec['vs']])
+    if o == 'query':
+        return kdrv.query([enums.QueryFunction[f] for f in spec['funcs']])
     raise KeyError(o)
 
 
@@ -247,6 +251,8 @@ def classify(spec, it):
             return ('RDestroyed', canon(p['unique_identifier']))
         if o == 'locate':
             return ('RLocated', sorted(canon(x) for x in (p.get('unique_identifiers') or [])))
+        if o == 'discover':
+            return ('RVersions', [10 * v['major'] + v['minor'] for v in (p.get('protocol_versions') or [])])
         return ('RFound', p.get('unique_identifier'))
     reason, msg = it['reason'], it['message'] or ''
     if reason == 'OPERATION_NOT_SUPPORTED' and 'is not supported by KMIP' in msg:
@@ -274,7 +280,7 @@ def canon(s):
 
 
 def resp_term(c):
-    if c[0] in ('RIssued', 'RLocated'):
+    if c[0] in ('RIssued', 'RLocated', 'RVersions'):
         return '(%s %s)' % (c[0], cp.lst(c[1], zt))
     return c[0]
 
@@ -566,6 +572,10 @@ def op_term(c):
         return '(OGetWrapped %s %s)' % (opt_z(c['tgt_uid']), zt(c['w_uid']))
     if o == 'locate':
         return 'OLocate'
+    if o == 'discover':
+        return '(ODiscover %s)' % cp.lst([10 * a + b for a, b in c['vs']], zt)
+    if o == 'query':
+        return 'OQuery'
     raise KeyError(o)
 
 
@@ -577,6 +587,21 @@ def pick_version(rng):
         if x < w:
             return v
         x -= w
+
+
+QUERY_FUNCTIONS = ['QUERY_OPERATIONS', 'QUERY_OBJECTS', 'QUERY_SERVER_INFORMATION', 'QUERY_APPLICATION_NAMESPACES',
+                   'QUERY_EXTENSION_LIST', 'QUERY_EXTENSION_MAP']
+
+
+def gen_info_spec(rng):
+    """DiscoverVersions with a client list (partial, unordered, duplicates, unsupported members, empty) or Query."""
+    if rng.random() < 0.65:
+        pool = list(kdrv.VERSIONS) + [(1, 5), (2, 1), (9, 9)]
+        n = rng.choice([0, 1, 2, 2, 3, 4])
+        vs = [rng.choice(pool) for _ in range(n)]
+        return {'op': 'discover', 'vs': [list(v) for v in vs]}
+    k = rng.randrange(1, 4)
+    return {'op': 'query', 'funcs': rng.sample(QUERY_FUNCTIONS, k)}
 
 
 def gen_create_spec(rng, tr, cheap=True):
@@ -736,7 +761,7 @@ def gen_history(ctx, rng, run, length, ckp_budget, kill_budget=2):
             run.request(who, ver, False, [{'op': 'destroy', 'tgt': tgt}])
             n += 1
         elif x < 0.70:
-            run.request(pick_who(rng), ver, False, [{'op': 'locate'}])
+            run.request(pick_who(rng), ver, False, [{'op': 'locate'} if rng.random() < 0.7 else gen_info_spec(rng)])
             n += 1
         elif x < 0.76:                                 # Get wrapped: target and wrapping key chosen independently
             tgt = gen_target(rng, tr, allow_none=False, dead_bias=0.2)
@@ -854,6 +879,10 @@ def play(run, script):
             run.request(who, tuple(ver), cont, [dict(s) for s in specs])
 
 
+def ctx_in_child(run):
+    return run.ctx
+
+
 def replay_events(run, events):
     """Re-run a recorded history (events as stored in a replay file)."""
     skip_restart = False
@@ -864,13 +893,148 @@ def replay_events(run, events):
             skip_restart = False
         elif ev['ev'] == 'killed':
             it = ev['items'][0]
-            spec = {k: v for k, v in it.items() if k in ('op', 'good', 'rich', 't', 'bases', 'tgt', 'w', 'k', 'variant', 'pol', 'prot')}
+            spec = {k: v for k, v in it.items() if k in ('op', 'good', 'rich', 't', 'bases', 'tgt', 'w', 'k', 'variant', 'pol', 'prot', 'vs', 'funcs')}
             run.killed_request(ev['who'], tuple(ev['ver']), spec, ev['point'])
             skip_restart = True                        # killed_request records its own restart event
         else:
-            specs = [{k: v for k, v in it.items() if k in ('op', 'good', 'rich', 't', 'bases', 'tgt', 'w', 'k', 'variant', 'pol', 'prot')}
+            specs = [{k: v for k, v in it.items() if k in ('op', 'good', 'rich', 't', 'bases', 'tgt', 'w', 'k', 'variant', 'pol', 'prot', 'vs', 'funcs')}
                      for it in ev['items']]
             run.request(ev['who'], tuple(ev['ver']), ev['cont'], specs)
+
+
+# ------------------------------------------------------------------ restart by kill: the server runs in its own process
+class CountCtx:
+    """ctx stand-in inside a forked server process: counters are shipped back to the parent."""
+    def __init__(self, work):
+        from collections import Counter
+        self.work = work
+        self.counts = Counter()
+
+    def count(self, key, n=1):
+        self.counts[key] += n
+
+
+def _runner_state(run, rng, counts, last):
+    return {'events': run.events, 'coq': run.coq, 'hits': run.hits, 'tr': run.tr, 'ever': run.ever,
+            'rng': rng.getstate() if rng is not None else None, 'counts': dict(counts), 'last': last}
+
+
+def run_in_server_processes(ctx, path, segments, seed_rng=None):
+    """segments: list of (how the process ends: 'kill' | 'exit', callable(run, rng)).  Each segment runs in a FORKED process
+    that opens its own KmipEngine on `path` (a new server process on the same database file), executes the callable,
+    ships the runner state back through a pipe and is then killed with SIGKILL (or leaves with os._exit) - never a clean
+    shutdown.  The parent never opens the database itself.  Returns the final runner state."""
+    import os, pickle, signal, struct, time, random
+    state = None
+    for k, (how, fn) in enumerate(segments):
+        r, w = os.pipe()
+        pid = os.fork()
+        if pid == 0:                                   # ---------------- the server process
+            code = 0
+            try:
+                os.close(r)
+                eng = kdrv.Engine(path=path, policies=build_policies())
+                cctx = CountCtx(ctx.work)
+                run = Runner(cctx, eng)
+                rng = random.Random()
+                if state is not None:
+                    run.events, run.coq, run.hits, run.tr, run.ever = state['events'], state['coq'], state['hits'], state['tr'], state['ever']
+                    if state['rng'] is not None:
+                        rng.setstate(state['rng'])
+                    # what the new process finds in the file; nothing may have changed since the last acknowledged operation
+                    nxt, us = eng.next_uid(), eng.uids()
+                    run.events.append({'ev': 'restart', 'by': state['last']['how'], 'next_uid': nxt, 'uids': us})
+                    run.coq.append(('ERestart', 'Ob (Some []) %s %s' % (zt(nxt), cp.lst(us, zt))))
+                    cctx.count('event.restart.process_%s' % state['last']['how'])
+                    lost = [u for u in state['last']['uids'] if u not in us]
+                    back = [u for u in us if u not in state['last']['uids']]
+                    if lost or back or nxt != state['last']['next']:
+                        run.hit({'kind': 'restart-changed-store', 'by': state['last']['how']},
+                                'after the server process ended by %s and a new process opened the same database file: acknowledged '
+                                'objects %r are gone, identifiers %r are (back) in the table, allocator %d -> %d' % (
+                                    state['last']['how'], lost, back, state['last']['next'], nxt), len(run.events) - 1)
+                elif seed_rng is not None:
+                    rng.setstate(seed_rng.getstate())
+                fn(run, rng)
+                last = {'how': how, 'next': eng.next_uid(), 'uids': eng.uids()}
+                data = pickle.dumps(('ok', _runner_state(run, rng, cctx.counts, last)))
+            except BaseException as e:                 # ship the failure to the parent, never fall out of the child
+                import traceback
+                data = pickle.dumps(('error', traceback.format_exc()[-2000:]))
+                code = 1
+            try:
+                data = struct.pack('!I', len(data)) + data
+                while data:
+                    n_ = os.write(w, data)
+                    data = data[n_:]
+                os.close(w)
+                if how == 'kill' and code == 0:
+                    time.sleep(300)                    # answers are out; wait for the SIGKILL
+            finally:
+                os._exit(code)
+        os.close(w)                                    # ---------------- the parent
+        buf = b''
+        while True:
+            chunk = os.read(r, 1 << 16)
+            if not chunk:
+                break
+            buf += chunk
+            if len(buf) >= 4 and len(buf) - 4 >= struct.unpack('!I', buf[:4])[0]:
+                break
+        os.close(r)
+        if how == 'kill':
+            try:
+                os.kill(pid, signal.SIGKILL)
+            except OSError:
+                pass
+        os.waitpid(pid, 0)
+        if len(buf) < 4:
+            raise RuntimeError('server process %d of the history died without reporting' % k)
+        kind, payload = pickle.loads(buf[4:4 + struct.unpack('!I', buf[:4])[0]])
+        if kind != 'ok':
+            raise RuntimeError('server process %d of the history failed: %s' % (k, payload))
+        state = payload
+        for key, n_ in state['counts'].items():
+            ctx.count(key, n_)
+        state['counts'] = {}
+    return state
+
+
+def remove_db(path):
+    import os, glob
+    for f in glob.glob(path + '*'):
+        try:
+            os.unlink(f)
+        except OSError:
+            pass
+
+
+def check_database_settings(ctx):
+    """What the allocator model relies on, read from a database the engine has just created and used:
+    AUTOINCREMENT in the DDL of managed_objects, rollback-journal mode (a committed transaction is in the database file
+    itself), and no side files next to the database other than SQLite's own journal."""
+    import os, sqlite3, glob
+    eng = new_engine(ctx.work)
+    try:
+        eng.request([build_item({'op': 'create', 'good': True}, (1, 2))], user='alice')
+        con = sqlite3.connect(eng.path)
+        try:
+            mode = con.execute('PRAGMA journal_mode').fetchone()[0]
+            ddl = con.execute("select sql from sqlite_master where type='table' and name='managed_objects'").fetchone()[0]
+        finally:
+            con.close()
+        side = sorted(f[len(eng.path):] for f in glob.glob(eng.path + '*'))
+        bad = []
+        if str(mode).lower() != 'delete':
+            bad.append('journal_mode is %r, not the rollback journal the model assumes (commits would live in a side file)' % mode)
+        if 'AUTOINCREMENT' not in ddl.upper():
+            bad.append('managed_objects is created without AUTOINCREMENT')
+        if not set(side) <= {'', '-journal'}:
+            bad.append('files next to the database besides the rollback journal: %r' % [x for x in side if x not in ('', '-journal')])
+        return bad, {'journal_mode': mode, 'autoincrement': 'AUTOINCREMENT' in ddl.upper(), 'files': side}
+    finally:
+        eng.close()
+        remove_db(eng.path)
 
 
 # ------------------------------------------------------------------ shrinking a failing history
@@ -937,6 +1101,15 @@ def run(ctx):
                            'detail': 'the shipped default policy no longer matches the access table of the model: %r' % bad_pol[:6],
                            'candidates': []})
 
+    try:
+        bad_db, seen_db = check_database_settings(ctx)
+        ctx.cov['database_settings'] = seen_db
+    except Exception as e:
+        bad_db = ['could not read the database settings: %r' % e]
+    if bad_db:
+        ctx.broken.append({'kind': 'translation', 'name': 'database settings the allocator model relies on',
+                           'detail': '; '.join(bad_db), 'candidates': []})
+
     histories = []           # (coq case, events)
     all_hits = []
 
@@ -963,6 +1136,42 @@ def run(ctx):
     n_hist = 60 if quick else 400
     for k in range(n_hist):
         one(seed_name='hist%d' % k, length=ctx.subrng('len%d' % k).randrange(8, 36))
+    # restart by kill: every segment of these histories runs in its own server process, ended by SIGKILL (or _exit)
+    import os
+
+    def kill_history(name, script_segments=None):
+        path = os.path.join(str(ctx.work), 'srv_%s.db' % name)
+        remove_db(path)
+        rng = ctx.subrng(name)
+        if script_segments is not None:
+            segs = [(how, (lambda evs: (lambda run, r_: play(run, evs)))(evs)) for how, evs in script_segments]
+        else:
+            nseg = rng.randrange(2, 5)
+            segs = [(rng.choice(['kill', 'kill', 'exit']),
+                     (lambda n_: (lambda run, r_: gen_history(ctx_in_child(run), r_, run, n_, ckp_budget=0, kill_budget=0)))(rng.randrange(3, 9)))
+                    for _ in range(nseg)]
+        try:
+            st = run_in_server_processes(ctx, path, segs, seed_rng=rng)
+            histories.append((cp.lst(['(%s, %s)' % p for p in st['coq']], str), st['events']))
+            all_hits.extend(st['hits'])
+            for ev, (evt, obt) in zip(st['events'], st['coq']):
+                ctx.case_seen(('srv', evt, obt), nontrivial=True)
+        except Exception as e:
+            ctx.broken.append({'kind': 'correspondence', 'name': 'kill-histories', 'detail': repr(e)[-1500:], 'candidates': []})
+        finally:
+            remove_db(path)
+
+    C_ = {'op': 'create', 'good': True, 'rich': True}
+    O_ = {'op': 'register', 't': 'TOpaque', 'good': True}
+    kill_history('kill_scenario', [
+        ('kill', [('req', 0, (1, 2), False, [O_]), ('req', 0, (1, 2), False, [C_]), ('req', 0, (1, 2), False, [O_]),
+                  ('req', 0, (1, 2), False, [{'op': 'destroy', 'tgt': ['ref', 2]}])]),
+        ('kill', [('req', 0, (1, 2), False, [{'op': 'addr', 'k': 'AGet', 'tgt': ['ref', 2]}]), ('req', 1, (1, 2), False, [C_]),
+                  ('req', 0, (1, 2), False, [{'op': 'locate'}])]),
+        ('exit', [('req', 1, (1, 2), False, [{'op': 'destroy', 'tgt': ['newest']}]), ('req', 1, (1, 2), False, [C_])]),
+        ('kill', [('req', 0, (1, 2), False, [{'op': 'locate'}]), ('req', 1, (1, 2), False, [{'op': 'locate'}]), ('req', 2, (1, 2), False, [C_])])])
+    for k in range(8 if quick else 60):
+        kill_history('srv%d' % k)
     ctx.log('ran %d histories, %d events' % (len(histories), sum(len(e) for _, e in histories)))
 
     bad = ctx.run_cases('histories', HEADER, [h for h, _ in histories], 'check_history', shard=40,
@@ -999,6 +1208,27 @@ def replay(ctx, data):
     if not events:
         print('replay file holds no history')
         return 2
+    if any(e.get('ev') == 'restart' and e.get('by') for e in events):
+        # the history has restarts by process end: replay every stretch in a server process of its own, ended the same way
+        import os
+        segs, cur = [], []
+        for e in events:
+            if e.get('ev') == 'restart' and e.get('by'):
+                segs.append((e['by'], cur))
+                cur = []
+            else:
+                cur.append(e)
+        segs.append(('exit', cur))
+        path = os.path.join(str(ctx.work), 'replay_srv.db')
+        remove_db(path)
+        st = run_in_server_processes(ctx, path, [(how, (lambda evs: (lambda run, r_: replay_events(run, evs)))(evs)) for how, evs in segs])
+        remove_db(path)
+        for sig, wit, what in st['hits']:
+            print('REPRODUCED:', what)
+        text = cp.lst(['(%s, %s)' % p for p in st['coq']], str)
+        ok, out, err = ctx.coq_eval('replay', HEADER + 'Eval vm_compute in (check_history %s, first_bad %s).\n' % (text, text))
+        print('model agrees with the implementation on this history:', ' '.join(out.split()) if ok else err[-400:])
+        return 1 if st['hits'] or 'false' in out else 0
     eng = new_engine(ctx.work)
     try:
         run_ = Runner(NullCtx(ctx.work), eng)
